@@ -1,5 +1,5 @@
 (* Obligation over the tables regenerated from the compiled crate on every run: builder path and
-   parser path both equal the specification table on all 28 x 27 x 2 cells (14 locations, each on two base packets); value boundaries; no
+   parser path both equal the specification table on all 28 x 27 x 3 cells (14 locations, each on two base packets); value boundaries; no
    unknown property identifier is accepted. *)
 From MQ Require Import Base.Prelude Packet.Prim Packet.Props Generated.ObservedProps.
 From MQ Require Export GenChecks.C18Defs.
